@@ -6,6 +6,7 @@ import (
 	"go/constant"
 	"go/token"
 	"go/types"
+	"regexp"
 	"sort"
 	"strings"
 	"sync"
@@ -47,12 +48,11 @@ func (x *Exec) unsup(f string, a ...interface{}) {
 
 func (x *Exec) note(f string, a ...interface{}) { x.notes[fmt.Sprintf(f, a...)] = true }
 
+var pkgPathRe = regexp.MustCompile(`[A-Za-z0-9_.\-]+(/[A-Za-z0-9_.\-]+)*/`)
+
 func fnKey(fn *ssa.Function) string {
 	// shorten package paths to their last element
-	s := fn.String()
-	s = strings.ReplaceAll(s, "go.uber.org/dig/internal/", "")
-	s = strings.ReplaceAll(s, "go.uber.org/", "")
-	return s
+	return pkgPathRe.ReplaceAllString(fn.String(), "")
 }
 
 func (x *Exec) siteName(fr *Frame, what string, instr ssa.Instruction) string {
@@ -358,7 +358,7 @@ func (s *State) loadFrom(h map[string]Term, p *PtrVal) Term {
 
 func (s *State) globalValue(g *ssa.Global) Term {
 	t := g.Type().(*types.Pointer).Elem()
-	name := "gv." + strings.ReplaceAll(strings.ReplaceAll(g.String(), "go.uber.org/dig/internal/", ""), "go.uber.org/", "")
+	name := "gv." + pkgPathRe.ReplaceAllString(g.String(), "")
 	c := s.declare(name, s.w.sortOf(t))
 	return c
 }
